@@ -123,7 +123,7 @@ def mixed_pack():
     """Lists of length 0-3 mixing scalars, nulls, hashes and lists."""
     import itertools
     members = (None, 1000, "a", ("m", (("a", 1000),)), ("l", ("a",)),
-               ("m", ()), ("l", ()))
+               ("m", ()), ("l", ()), 0, False)      # (falsy scalars, too)
     out = []
     for n in range(0, 4):
         for combo in itertools.product(members, repeat=n):
